@@ -205,7 +205,7 @@ def cfg_node(cfg: Dict[str, Any], node: N) -> Dict[str, Any]:
     return sub
 
 
-def universal_config(t: Tree, *, with_root_targets: bool = True, reenter_all: bool = True, shared: bool = False, naming: str = "prefix") -> Tuple[Dict[str, Any], List[N], Dict[str, Dict[str, Any]]]:
+def universal_config(t: Tree, *, with_root_targets: bool = True, reenter_all: bool = True, shared: bool = False, naming: str = "prefix", root_id: str = "m") -> Tuple[Dict[str, Any], List[N], Dict[str, Dict[str, Any]]]:
     """Universal machine: one event per (source, target) pair.
 
     Events: 'T<i>_<j>' source i -> target j (absolute '#id' target),
@@ -213,7 +213,7 @@ def universal_config(t: Tree, *, with_root_targets: bool = True, reenter_all: bo
     Every transition carries a marker action 'tr:<event>'.
     Returns (config, nodes, events) with events[name] = {src, tgt, kind}.
     """
-    nodes = flatten(t, naming=naming)
+    nodes = flatten(t, root_id=root_id, naming=naming)
     cfg = skeleton_config(nodes)
     events: Dict[str, Dict[str, Any]] = {}
     for s in nodes:
